@@ -494,10 +494,27 @@ impl Monitor for C07 {
                 obs.count(&format!("unsure[{}]", r));
                 Outcome::Inconclusive("grammar_unsure")
             }
-            Parsed::Valid(_) => {
+            Parsed::Valid(ast) => {
                 obs.count("oracle_valid");
                 match got {
                     Ok(()) => {
+                        // which grammar productions the accepted patterns exercised
+                        if !obs.quiet {
+                            let mut census = std::collections::BTreeMap::new();
+                            ast.census(&mut census);
+                            for (k, v) in census {
+                                obs.add(&format!("accepted_construct_{}", k), v);
+                            }
+                            if ast.any(&|n| matches!(n, Node::Class(c) if c.sub.is_some())) {
+                                obs.count("accepted_construct_class_subtraction");
+                            }
+                            if ast.any(&|n| matches!(n, Node::Class(c) if c.neg)) {
+                                obs.count("accepted_construct_negated_class");
+                            }
+                            if ast.any(&|n| matches!(n, Node::Repeat { body, .. } if matches!(**body, Node::Bol | Node::Eol))) {
+                                obs.count("accepted_construct_quantified_anchor");
+                            }
+                        }
                         if c.pattern.chars().count() >= 2 {
                             obs.nontrivial(c.key());
                         }
